@@ -76,6 +76,18 @@ PROPS["C08"] = {
     "assumptions": COMMON_ASSUME,
 }
 
+PROPS["C09"] = {
+    "engine": "h1",
+    "level": "exploration",
+    "budget": {"quick": 30, "thorough": 600},
+    "runs_per_proc": 60,
+    "technique": "deterministic simulation on the fake clock: sampled segment layouts (counts, bytes, last-write times via clock jumps), limit triples enumerated around the layout's suffix sums and ages, repeated cleans, cleans racing an appender; expected number of removed segments computed from the statement",
+    "level_text": "for every sampled layout a probing run records per-segment message counts, byte sizes and ages; limit values at, just below and just above every suffix sum / segment age are combined (quick: 12 sampled triples, thorough: all up to 400 per layout); after each clean the remaining segments must be exactly the suffix that the smallest sufficient removal leaves, and the log must read back from its new oldest offset",
+    "level_note": "per-segment facts are derived from the harness model (independent encoder for byte sizes) and the segment base offsets; message timestamps are monotone",
+    "rule": "one evaluation = one (layout program, limit triple) execution; distinct = distinct event-log hash; non-trivial = at least one clean was judged and >=5 oracle evaluations",
+    "assumptions": COMMON_ASSUME + ["with a concurrent appender the clean may observe any prefix of the concurrent appends: the removed count must lie between what the log before and the log after require"],
+}
+
 NOT_APPLICABLE = [
     {"property_id": pid, "reason": "check not built yet in this round (engine under construction); see DESIGN.md section 9 build order"}
     for pid in ["C%02d" % i for i in range(1, 20)] if pid not in PROPS
